@@ -221,7 +221,7 @@ theorem exchangeBatch_obs_eq (hro : ReadOnly run S rec) (fo : FilterObj) (extra 
      cases hA : w.obs.hasObservers Ev.onAddComponents <;>
      simp only [M.bind_apply, checkLocked_unlocked w hl, M.assert_apply, hr, ha, Bool.and_self,
         Bool.and_false, Bool.false_and, Bool.not_false, Bool.not_true, if_true,
-        hts, forIn_findLoop, hfind0, hlock0, M.get_apply, r2, hE, hA, Bool.false_eq_true,
+        hts, forIn_findLoop, hfind0, registerTargets_nil_apply, hlock0, M.get_apply, r2, hE, hA, Bool.false_eq_true,
         if_false, hRem', loop2_none_list, List.nil_append, r1, foldl_moveStep_none_reframe,
         movedList_reframe, hAdd', hnoR, hnoA, List.isEmpty_nil, Bool.and_true,
         List.append_nil, hun, reframe_reframe, M.pure_apply])
